@@ -77,6 +77,15 @@ class RunningFailure(Observer):
             ref.stop_app, ref.restart_app, ref.restart_proc, ref.cont = map(set, s)
 
         def add_job(strategy, process):
+            # "applies to each managed process that was RUNNING only there": a process that was already STOPPING on the
+            # lost instance (stopped by hand, slow stop) is not a running failure
+            for loss in obs.losses[-2:]:
+                if sim.now_us - loss['t_us'] < 45 * US and process.namespec in loss.get('stopping_there', ()) \
+                        and process.namespec not in loss['only_there']:
+                    obs._probe('add_job_for_stopping_process')
+                    obs.violate('strategy-on-stopping-process',
+                                {'inst': inst.nick, 'process': process.namespec, 'strategy': strategy.name,
+                                 'lost_instance': loss['inst']}, 'strategy-applied-to-process-that-was-stopping')
             before = real_snapshot(handler)
             if before != ref.snapshot():
                 resync()
@@ -140,12 +149,14 @@ class RunningFailure(Observer):
         if why != 'crash' or not self.end_to_end:
             return
         lost = {ns for ns, st in truth(inst).items() if st == 'RUNNING'}
+        stopping = {ns for ns, st in truth(inst).items() if st == 'STOPPING'}
         elsewhere = set()
         for other in sim.instances.values():
             if other is not inst and other.alive and other.sd is not None:
                 elsewhere |= {ns for ns, st in truth(other).items() if st in ('RUNNING', 'STARTING', 'BACKOFF')}
         self.losses.append({'t_us': sim.now_us, 'inst': inst.nick, 'identifier': inst.identifier,
-                            'only_there': sorted(lost - elsewhere), 'elsewhere': elsewhere})
+                            'only_there': sorted(lost - elsewhere), 'elsewhere': elsewhere,
+                            'stopping_there': sorted(stopping - elsewhere)})
         self._probe('loss')
 
     def on_child(self, sim, inst, child, what):
